@@ -148,6 +148,11 @@ DeleteTrial(st, s, t) ==
 \* ----------------------------------------------------------------- metadata
 Merge(old, upd) == [c \in Cells |-> IF upd[c] # None THEN upd[c] ELSE old[c]]
 
+\* A stateful algorithm persists its state in study metadata and computes the next state from the stored one: the
+\* metadata value "inc" in env.md stands for "the successor of what is stored now" (None -> v1 -> v2 -> v1 ...).
+BumpVal(v) == IF v = "v1" THEN "v2" ELSE "v1"
+EffMd(meta, md) == [c \in Cells |-> IF md[c] = "inc" THEN BumpVal(meta[c]) ELSE md[c]]
+
 \* ----------------------------------------------------------------- suggest
 \* env = [raise |-> BOOLEAN,            the algorithm raises
 \*        ps    |-> Seq(param token),   the suggestions it delivers, in its order
@@ -207,7 +212,7 @@ SuggestFresh(st, s, w, n, env, ch) ==
      IN IF q.need = 0 THEN finish(st1, SeqOf(have), FALSE)
         ELSE IF env.raise THEN finish(st1, <<>>, TRUE)      \* DOC: "Error-ed" operation, done
         ELSE
-        LET st1m == [st1 EXCEPT !.study[s].meta = Merge(@, env.md)]
+        LET st1m == [st1 EXCEPT !.study[s].meta = Merge(@, EffMd(@, env.md))]
             base == MaxTrialId(st1m, s)
             k == q.k                                  \* DOC: a short delivery (k < need) is handed out as it is
             st2 == [st1m EXCEPT !.trial[s] = [t \in Ids |->
